@@ -325,6 +325,26 @@ class _Coord:
         return len(self.values)
 
 
+class _BoolSeq(list):
+    def all(self):
+        return all(self)
+
+    def any(self):
+        return any(self)
+
+
+class _Index(list):
+    """the little of pandas.Index that label bookkeeping needs"""
+
+    def isin(self, other):
+        other = list(other)
+        return _BoolSeq(_contains(other, x) for x in self)
+
+    @property
+    def values(self):
+        return list(self)
+
+
 class _Dims:
     def __init__(self, ds):
         self.ds = ds
@@ -489,6 +509,10 @@ class Dataset:
     @property
     def data_vars(self):
         return dict(self._vars)
+
+    @property
+    def indexes(self):
+        return {d: _Index(v) for d, v in self._coords.items() if d not in self._nocoord}
 
     @property
     def variables(self):
